@@ -184,6 +184,10 @@ func Roles() Spec {
 		},
 		// data
 		func(s sdk.AccAddress) *explore.Action {
+			// anyone may define a resolver with the SAME URL as B's private resolver #1 (only (url, manager) is unique)
+			return Msg(lbl("DefineResolver(url of #1,private)", s), &data.MsgDefineResolver{Definer: s.String(), ResolverUrl: "https://b.example", Public: false})
+		},
+		func(s sdk.AccAddress) *explore.Action {
 			return Msg(lbl("RegisterResolver(#1 private of B)", s), &data.MsgRegisterResolver{Signer: s.String(), ResolverId: 1, ContentHashes: []*data.ContentHash{RawHash(byte(s[5]))}})
 		},
 		func(s sdk.AccAddress) *explore.Action {
